@@ -30,9 +30,8 @@ func init() {
 			names = append(names, "names3", "ids")
 		}
 		runSS(run, tier, names, []string{drv.BBolt}, drv.Badger, own("twin"), nil)
-		if tier == "thorough" {
-			runSS(run, tier, []string{"consistency"}, []string{drv.BBolt}, drv.BadgerDisk, own("twin"), func(c *eng.SSConfig) { c.MaxDepth = 3 })
-		}
+		// badger on disk as the twin (values above 1 KiB go through its value log): depth-bounded in the quick tier
+		runSS(run, tier, []string{"consistency"}, []string{drv.BBolt}, drv.BadgerDisk, own("twin"), func(c *eng.SSConfig) { c.MaxDepth = map[string]int{"quick": 3, "thorough": 0}[tier] })
 		for _, b := range []string{drv.BBolt, drv.Badger} {
 			eng.CursorSweep(run, b, true)
 		}
